@@ -20,6 +20,7 @@ RULE = ("texts rendered by the layout generator from token lists (1-10 lines; bl
         "parsed text of >=2 lines containing an un-indented line start, a blank line or a multi-line span token, or a tree "
         "with an empty node / a node of a factorised group; distinct by (grammar, text).")
 ASSUMPTIONS = [
+    "part same_length_texts finds caches keyed by the identity of the text only when the allocator hands the address of a dropped text to the next one (frequent for equally long texts, not guaranteed); judging does not depend on it",
     "inner-node span = start of first child .. end of last child after helper symbols are spliced out; a child that matched nothing has the empty span at the start of the following non-skipped token",
     "for an empty node followed only by the end of input any position from the end of the last token to the end of the text is accepted (start == end required)",
     "list-of-lines input carries no newline characters inside the lines",
@@ -401,6 +402,60 @@ def st_text_case():
             lambda c: st.booleans().map(lambda b: dict(c, as_list=b)))
 
 
+def eval_same_length_texts(case):
+    """a stream of different texts of one and the same length, each parsed, queried with get_orig_text and dropped before
+    the next one is built (records of a fixed-size format): every leaf's source slice must be its lexeme in *its* text"""
+    import gc
+    import ak.llparser as L
+    prods = {"S": [("ITEM", "S"), ()], "ITEM": [("WORD",), ("NUM",), (";",)]}
+    tokcfg, _ = gk.tok_config(True, False)
+    parser = L.LLParser(gk.TOKENIZER, productions=prods, start_symbol_name="S", **tokcfg)
+    f = []
+    width = case["width"]
+    nrec = 0
+    for rec in case["records"]:
+        # fixed-width words (letters encode the numbers), same layout for every record -> same text length
+        words = ["w" + "".join("abcdefghij"[int(ch)] for ch in ("%0*d" % (width, n))) for n in rec]
+        parts_ = []
+        for i, w in enumerate(words):
+            parts_.append(w)
+            parts_.append(case["seps"][i % len(case["seps"])])
+        text = "".join(parts_) + ";"
+        root = parser.parse(text, do_cleanup=False)
+        leaves = []
+        stack = [root]
+        while stack:
+            t = stack.pop()
+            if isinstance(t.value, list):
+                stack.extend(reversed(t.value))
+            elif t.value is not None:
+                leaves.append(t)
+        got = [lf.get_orig_text(text) for lf in leaves]
+        want = words + [";"]
+        if got != want and not f:
+            bad = next(i for i, (g, w) in enumerate(zip(got + [None] * len(want), want)) if g != w)
+            f.append(("leaf_orig_text_is_text_of_an_earlier_source", f"record {nrec}: leaf {bad} get_orig_text -> "
+                      f"{got[bad] if bad < len(got) else None!r}, its lexeme is {want[bad]!r} (text length {len(text)})"))
+        whole = root.get_orig_text(text)
+        if whole != text and not f:
+            f.append(("root_orig_text_is_not_the_text", f"record {nrec}: {whole[:60]!r} vs {text[:60]!r}"))
+        nrec += 1
+        del root, leaves, stack, t, text, got, whole, parts_
+        gc.collect()
+    return Outcome(nrec >= 3, ["same_length_texts", "text_len_%s" % ("lt_512" if case["approx_len"] < 512 else "ge_512")], f,
+                   key=[case["width"], case["records"][:2], case["seps"]], evals=nrec)
+
+
+@st.composite
+def st_same_length(draw):
+    width = draw(st.integers(3, 9))
+    nwords = draw(st.sampled_from([3, 8, 20, 60, 150, 400]))
+    seps = draw(st.lists(st.sampled_from([" ", "  ", "\n", " \n "]), min_size=1, max_size=4))
+    nrec = draw(st.integers(3, 8))
+    recs = [[draw(st.integers(0, 10 ** width - 1)) for _ in range(nwords)] for _ in range(nrec)]
+    return {"width": width, "records": recs, "seps": seps, "approx_len": nwords * (width + 2)}
+
+
 def regression_cases():
     # F2: "ab\ncd" - first token of the second line; F3: EXPR -> TERM (empty factorisation suffix) followed by blanks
     yield {"grammar": "fixed", "smart": True, "inputs": [
@@ -415,6 +470,8 @@ def parts(tier):
         Part("regressions", evaluate, enumerate=regression_cases, exhaustive=True),
         Part("layouts", evaluate, strategy=st_case, examples=3000 * k),
         Part("arbitrary_text", evaluate, strategy=st_text_case, examples=6000 * k),
+        Part("same_length_texts", eval_same_length_texts, strategy=st_same_length, examples=600 * k,
+             note="streams of equally long texts parsed and dropped one after the other (identity / length keyed caches)"),
     ]
 
 
